@@ -265,6 +265,7 @@ pub fn run_e1(monitor: &str, scripts: &[Script], cfg: &Cfg, factory: MonFactory<
                 let world = World::new(s, observers, "particle-1");
                 let text = world.part.script.clone();
                 let mut mon = factory(s);
+                let cfg = &Cfg { ignore_tags: known.clone(), ..cfg.clone() };
                 let ex = netmc::explore(world, cfg, mon.as_mut());
                 let viols: Vec<Violation> = ex
                     .found
